@@ -326,6 +326,9 @@ def i_own(eng, st, fr, fn, args, ins):
 
 
 def i_release(eng, st, fr, fn, args, ins):
+    # a scheduling point while the buffer is still held: other goroutines run with this one inside its
+    # critical section (natively: runtime.Gosched), so a double hand-out shows up as an ownership clash
+    sched_point(eng, st, 'vf.Release')
     b = args[0]
     owners = dict(st.ghost.get('owners', {}))
     me = st.ghost.get('cur_thread', 0)
